@@ -647,11 +647,13 @@ def run(ctx):
                     a = [alg.nf(x) for x in views[0].lanes]
                     b = [alg.nf(x) for x in views[1].lanes]
                     dot = S.dot(a, b)
-                    lanes = value_lanes(F, r.ret, rty)
-                    # the bias: the unique opaque ite variable created while normalising; its guard must be dot >= 0 -> +1 / -1
+                    from C07 import canon_c07
+                    lanes = [canon_c07(l) for l in (value_lanes(F, r.ret, rty) or [])]
+                    # the bias: every +-1 selection in the result (scalar form: an ite; SIMD form: a sign-bit xor, read as multiplication by +-1)
+                    # must be decided by the sign of the full four-component dot product
                     seen = []
 
-                    def walk(t, memo=set()):
+                    def walk(t, memo):
                         if t.id in memo:
                             return
                         memo.add(t.id)
@@ -660,23 +662,29 @@ def run(ctx):
                         for x in t.args:
                             if isinstance(x, tm.T):
                                 walk(x, memo)
-                    for l in lanes or []:
-                        walk(l)
+                    memo = set()
+                    for l in lanes:
+                        walk(l, memo)
                     biases = [t for t in seen if {tm.f_of(t.args[1]), tm.f_of(t.args[2])} == {1.0, -1.0}]
                     if not biases:
-                        # SIMD form: select / sign-bit xor of the end point
-                        ok = any('signbit' in tm.show(l, 0, 30) or 'ite' in tm.show(l, 0, 30) for l in lanes or [])
-                        if not ok:
-                            bad = 'no shortest-arc sign flip found'
-                    else:
-                        t = biases[0]
+                        bad = 'no shortest-arc sign flip found'
+                    zero = tm.fconst(0.0, sz)
+                    for t in biases:
                         G = t.args[0]
-                        zero = tm.fconst(0.0, sz)
                         pos_when_true = tm.f_of(t.args[1]) == 1.0
                         okG = (G.op == 'fle' and G.args[0] is zero and S.eq(alg.nf(G.args[1]), dot) and pos_when_true) or \
                               (G.op == 'flt' and G.args[1] is zero and S.eq(alg.nf(G.args[0]), dot) and not pos_when_true)
                         if not okG:
-                            bad = 'end point is not negated exactly when dot < 0: guard %s' % tm.show(G, 0, 3)[:160]
+                            bad = 'end point is not negated exactly when the four-component dot product is negative: guard %s' % tm.show(G, 0, 3)[:200]
+                            break
+                    if not bad and lanes:
+                        # and the result is normalize(self + s (end' - self)) lane by lane
+                        sgn = alg.nf(biases[0])
+                        s_ = alg.nf(views[2].lanes[0])
+                        un = [S.add(x, S.mul(s_, S.sub(S.mul(y, sgn), x))) for x, y in zip(a, b)]
+                        inv = S.div(S.c(1), alg.sqrt_r(S.dot(un, un)))
+                        if not all(S.eq(alg.nf(l), S.mul(u, inv)) for l, u in zip(lanes, un)):
+                            bad = 'lerp is not normalize(self + s (+-end - self))'
                 done('R-ARC', name, bad, it)
         # R-ROTTOW: vector rotate_towards is a rotation of self by the clamped angle
         check_rotate_towards(ctx, cfg, F, done)
